@@ -841,6 +841,100 @@ def pair_cases(bases, basetoks, nbases):
     return cases
 
 
+# ------------------------------------------------------------------------------------------------
+# 4. expression fragment: attachment skeletons and the document of an expression
+# ------------------------------------------------------------------------------------------------
+def gen_expr_text(rng, depth, comments=True):
+    def cm():
+        if not comments or not rng.chance(1, 4):
+            return ""
+        k = rng.below(4)
+        w = rng.pick(["c1", "c2", "note", "x"])
+        return [f"/* {w} */ ", f"/** {w} */ ", f"// {w}\n", f"/* {w} */ /* k */ "][k]
+    if depth <= 0 or rng.chance(1, 3):
+        return cm() + rng.pick(["a", "b", "x1", "42", "7", "foo"])
+    k = rng.below(10)
+    if k < 6:
+        op = rng.pick(["+", "-", "*", "/", "%", "<", "<=", "==", "!=", "&&", "||", "::", ">", ">="])
+        l, r = gen_expr_text(rng, depth - 1, comments), gen_expr_text(rng, depth - 1, comments)
+        if rng.chance(1, 3):
+            r = "(" + cm() + r + (" /* z */" if comments and rng.chance(1, 5) and "//" not in r[-12:] else "") + ")"
+        if rng.chance(1, 4):
+            l = "(" + l + ")"
+        return f"{l} {cm()}{op} {r}"
+    if k < 8:
+        return cm() + rng.pick(["!", "-"]) + "(" + gen_expr_text(rng, depth - 1, comments) + ")"
+    return "(" + cm() + gen_expr_text(rng, depth - 1, comments) + ")"
+
+
+def gen_chain_text(rng, depth):
+    """expressions with field/method access and calls, for the attachment skeletons"""
+    base = gen_expr_text(rng, depth, comments=rng.chance(1, 2))
+    if rng.chance(1, 2):
+        base = "(" + base + ")"
+    for _ in range(rng.range(0, 3)):
+        base += rng.pick([".f", ".g(1)", "(2)", ".h<int>(3)"])
+    if rng.chance(1, 2):
+        base = base + " " + rng.pick(["+", "*", "&&"]) + " " + gen_expr_text(rng, 1, comments=True)
+    return base
+
+
+def fragment_phase(ctx, n):
+    rng = ctx.rng.fork()
+    # (a) attachment / parenthesis skeletons: real parser vs Model/Attach.lean
+    lines, mk = [], []
+    for _ in range(n):
+        t = gen_chain_text(rng, rng.range(0, 3))
+        extra = ",".join(rng.pick(["e1", "e2", "e3"]) for _ in range(rng.range(0, 2))) or "-"
+        stop = ",".join(rng.pick(["s1", "s2"]) for _ in range(rng.range(0, 2))) or "-"
+        if rng.chance(1, 2):
+            lines.append(f"attach {hexs(t)} {extra}"); mk.append(("attachm", extra, None))
+        else:
+            lines.append(f"paren {hexs(t)} {extra} {stop}"); mk.append(("parenm", extra, stop))
+    impl = run_h(lines)
+    mlines = []
+    for a, (op, x, y) in zip(impl, mk):
+        if " | " in a and not a.startswith("panic"):
+            s0 = a.split(" | ")[0]
+            mlines.append(f"{op} {x} {s0}" if y is None else f"{op} {x} {y} {s0}")
+        else:
+            mlines.append("echo " + a)
+    model = run_d(mlines)
+    i = common.first_diff(impl, model)
+    nskel = sum(1 for a in impl if " | " in a)
+    if i is not None:
+        ctx.violation("model/implementation disagreement on protocol attach/paren (Model/Attach.lean vs parse_expression_with_additional_preceding_comments / keep_parenthesis_comments)",
+                      {"protocol": "attach", "line": lines[i], "text": uh(lines[i].split(" ")[1]), "impl": impl[i], "model": model[i] if i < len(model) else None,
+                       "broken": "correspondence `attach`/`paren`; attachLeft_stable / printCE_wrapLeft speak about the model only"}, no_input=True)
+    # (b) document of an expression: real create_doc vs Model/ExprDoc.lean, and its layout
+    texts = [gen_expr_text(rng, rng.range(0, 4)) for _ in range(n)]
+    widths = [rng.weighted([(100, 3), (rng.range(1, 30), 3), (rng.range(31, 80), 2)]) for _ in texts]
+    lines = [f"exprdoc {w} {hexs(t)}" for w, t in zip(widths, texts)]
+    impl = run_h(lines)
+    mlines = []
+    for a, w in zip(impl, widths):
+        if a.startswith("ok "):
+            tree = a.split(" | ")[0].split(" ", 2)[2]
+            mlines.append(f"exprdocm {w} {tree}")
+        else:
+            mlines.append("echo " + a)
+    model = run_d(mlines)
+    ndocs = sum(1 for a in impl if a.startswith("ok "))
+    for t, w, a in zip(texts, widths, impl):
+        if a.startswith("panic"):
+            ctx.violation("formatting an expression panics: " + uh(a[6:])[:100], {"protocol": "exprdoc", "text": t, "width": w, "impl": a})
+            break
+    i = common.first_diff(impl, model)
+    if i is not None and not ctx.violations:
+        a, b = impl[i], model[i] if i < len(model) else "<missing>"
+        ctx.violation("model/implementation disagreement on protocol exprdoc (Model/ExprDoc.lean vs create_doc): the document or its layout differs",
+                      {"protocol": "exprdoc", "text": texts[i], "width": widths[i], "impl": a[:2500], "model": b[:2500],
+                       "impl_text": uh(a.split(" ")[1]) if a.startswith("ok ") else None,
+                       "model_text": uh(b.split(" ")[1]) if b.startswith("ok ") else None,
+                       "broken": "correspondence `exprdoc`; docOf_ok / expression_layout_text speak about the model only"}, no_input=True)
+    return {"attachment_skeletons_compared": nskel, "expression_documents_equal_to_model": ndocs}, 2 * n
+
+
 def regen_contexts():
     """Maintenance (run on the unchanged tree only): enumerate every gap of every base and record the
     token contexts in which the unchanged code fails / passes.  `python3 -m vlib.c09 regen`"""
@@ -893,18 +987,19 @@ def run(ctx):
     e1, n1 = layout_phase(ctx, ctx.scale(15000, 150000))
     e2, n2 = queue_phase(ctx, ctx.scale(3000, 30000))
     n3 = prepend_phase(ctx, ctx.scale(1000, 10000))
+    e5, n5 = fragment_phase(ctx, ctx.scale(1500, 15000))
     e4, cases, samples = module_phase(ctx)
-    extra.update(e1); extra.update(e2); extra.update(e4)
+    extra.update(e1); extra.update(e2); extra.update(e4); extra.update(e5)
     if any(not v[1] for v in ctx.violations):
         # a concrete failing input was found: the broken-tie reports add nothing
         ctx.violations = [v for v in ctx.violations if not v[1]]
     distinct = len({(c["ctx4"], c["kind"]) for c in cases})
     ctx.cov.update({
-        "evaluations": n1 + n2 + n3 + len(cases) + ncorpus,
+        "evaluations": n1 + n2 + n3 + n5 + len(cases) + ncorpus,
         "distinct_nontrivial": distinct,
         "rule": "distinct (4-token context of the comment gap, comment kind) pairs among the module cases; each case = one comment inserted into one token gap of a valid module, formatted twice by the real parser+printer",
         "samples": samples,
-        "traces_validated_against_impl": n1 + n2 + n3 + extra.get("real_documents_laid_out_by_model", 0),
+        "traces_validated_against_impl": n1 + n2 + n3 + n5 + extra.get("real_documents_laid_out_by_model", 0),
         "part_b_fragment_corollaries": partb,
         "pending": ["text-level (layout-level) idempotence as a theorem needs the printer's document construction per construct in the model; comments on operator tokens in the fragment round trip; hook-level tie for keep_parenthesis_comments / leftmost attachment (today tied only through the module oracle)"],
         "partial_theorems": {"format_idempotent_fragment_partial / roundtrip_with_comments_partial / format_idempotent_with_comments_partial": "C08's decidable side condition RT e; token level; comments on atoms (normal form the parser produces since fix a0babc7); atom table without duplicates",
